@@ -836,7 +836,7 @@ Binding demonstration (2026-10-04, scratch worktrees of /repo under /tmp, remove
  corrupted records: 9 more in selftest() (heading file, heading line, echo, caret, alignment, lead column, merged groups, heading
  missing, group order): all rejected.
  finding (open): no heading -- hence no file name -- when the renumbered line cannot be read; default style aborts when the file named
- by #line is missing (key cause=nohead; hooks/candidate-C15-heading-without-source.diff: with it `C15 quick: held' and no case
+ by #line is missing (key cause=nohead; hooks/fix-C15-heading-without-source.diff: with it `C15 quick: held' and no case
  needs the as-written model except eofif).
  TraceSrcPosAsw.cfg now describes the tree as it is (column packer and table policy repaired, EOF-in-#if and heading as written).
  measured: quick 84 s wall at machine load 70 (the version before this round: 53 s idle / 120 s against 146 s when both ran side by
